@@ -71,8 +71,11 @@ class Routes(object):
         nm, ptext, x = self.items[i]
         p = [float(t) for t in ptext]
         out = {}
+        # parameters written without a decimal point reach the potable routes as Python ints: the same typing on R1 / R2
+        pi = [int(t) if t.lstrip("-").isdigit() else float(t) for t in ptext]
         for route, fn in (("R1", lambda: getattr(PFn, nm)(x, *p)), ("R2", lambda: getattr(PFo, nm)(*p)(x)),
-                          ("R3", lambda: self.r3["X%d" % i].energy(x)), ("R4", lambda: self.r4["X%d" % i].energy(x))):
+                          ("R3", lambda: self.r3["X%d" % i].energy(x)), ("R4", lambda: self.r4["X%d" % i].energy(x)),
+                          ("R1int", lambda: getattr(PFn, nm)(x, *pi)), ("R2int", lambda: getattr(PFo, nm)(*pi)(x))):
             try:
                 out[route] = fn()
             except Exception as e:
@@ -122,9 +125,11 @@ def worker_main(path):
         if isinstance(r1, str):
             fail("evaluation-raises", "%s: %s" % (what, r1), c)
             continue
-        for route in ("R2", "R3", "R4"):
+        for route in ("R2", "R3", "R4", "R1int", "R2int"):
             v = vals[route]
-            if isinstance(v, str) or v != r1:
+            # integer-typed parameters may round differently in the last place (int ** int is exact), nothing more
+            same = (not isinstance(v, str)) and (v == r1 or (route.endswith("int") and close(v, r1, tol=1e-13)))
+            if not same:
                 fail("routes-disagree", "%s: f(r, params) gives %r but route %s gives %r" % (what, r1, route, v), c)
                 break
         if "e" in c:
@@ -216,7 +221,83 @@ def worker_main(path):
         num2 = (fn.deriv(r + h, *p) - fn.deriv(r - h, *p)) / (2 * h)
         if not close(fn.deriv(r, *p), num1, scale=abs(fn(r, *p)) / r, tol=1e-6) or not close(fn.deriv2(r, *p), num2, scale=abs(fn.deriv(r, *p)) / r, tol=1e-6):
             fail("deriv", "as.%s %s at r=%s: .deriv = %r (slope of the energy %r), .deriv2 = %r (slope of .deriv %r)" % (nm, p, r, fn.deriv(r, *p), num1, fn.deriv2(r, *p), num2), None)
+    n += buck4_cases(data.get("buck4", []), fail)
     json.dump(dict(bad=bad, n=n), sys.stdout)
+
+
+def solve_exact(rows, rhs):
+    """Gaussian elimination over the rationals"""
+    k = len(rows)
+    m = [list(r) + [b] for r, b in zip(rows, rhs)]
+    for c in range(k):
+        piv = next(i for i in range(c, k) if m[i][c] != 0)
+        m[c], m[piv] = m[piv], m[c]
+        m[c] = [v / m[c][c] for v in m[c]]
+        for i in range(k):
+            if i != c and m[i][c] != 0:
+                f = m[i][c]
+                m[i] = [a - f * b for a, b in zip(m[i], m[c])]
+    return [m[i][k] for i in range(k)]
+
+
+def buck4_cases(cases, fail):
+    """four-range Buckingham: the rows emitted by TLC solved exactly with the documented end pieces; the factory (float and
+    int typed) and 'as.buck4 ...' in a potable section (both spellings of the numbers) against the exact piecewise function"""
+    n = 0
+    if not cases:
+        return 0
+    texts = []
+    for i, c in enumerate(cases):
+        p = [fr(x) for x in c["p"]]
+        texts.append(" ".join(dec(x) for x in p))
+    pairs = []
+    for i, t in enumerate(texts):
+        pairs.append("X%d-Y%d : >=-100 as.buck4 %s" % (i, i, t))
+        pairs.append("X%d-Z%d : >=-100 as.buck4 %s" % (i, i, " ".join(repr(float(x)) for x in t.split())))
+    text = "[Tabulation]\ntarget : LAMMPS\nnr : 5\ncutoff : 4.0\n\n[Pair]\n" + "\n".join(pairs) + "\n"
+    try:
+        tab = Configuration().read(io.StringIO(text))
+        r3 = {(p.speciesA, p.speciesB[0]): p for p in tab.potentials}
+    except Exception as e:
+        fail("well-formed-definition-refused", "potable file with 'as.buck4 params' entries refused: %s: %s" % (type(e).__name__, str(e)[:300]), None)
+        return 1
+    for i, c in enumerate(cases):
+        A, rho, C, rd, rm, ra = [fr(x) for x in c["p"]]
+        bm = F(float(A) * math.exp(-float(rd) / float(rho)))
+        named = {"zero": F(0), "start.v": bm, "start.d1": -bm / rho, "start.d2": bm / rho ** 2,
+                 "end.v": -C / ra ** 6, "end.d1": 6 * C / ra ** 7, "end.d2": -42 * C / ra ** 8}
+        coef = solve_exact([[fr(v) for v in row["row"]] for row in c["rows"]], [named[row["rhs"]] for row in c["rows"]])
+        a, b = coef[:6], coef[6:]
+        pf = [float(x) for x in (A, rho, C, rd, rm, ra)]
+        pint = [int(t) if t.lstrip("-").isdigit() else float(t) for t in texts[i].split()]
+        impls = {}
+        for route, mk in (("R2", lambda: PFo.buck4(*pf)), ("R2int", lambda: PFo.buck4(*pint)), ("R3", lambda: r3[("X%d" % i, "Y")].energy), ("R3float", lambda: r3[("X%d" % i, "Z")].energy)):
+            try:
+                impls[route] = mk()
+            except Exception as e:
+                fail("evaluation-raises", "as.buck4 %s through %s: %s: %s" % (texts[i], route, type(e).__name__, str(e)[:160]), dict(form="buck4", p=c["p"], x=[0, 1]))
+        for q in c["xs"]:
+            x = fr(q["x"])
+            if q["piece"] == "bornmayer":
+                want, scale = float(A) * math.exp(-float(x) / float(rho)), 0.0
+            elif q["piece"] == "dispersion":
+                want, scale = float(-C / x ** 6), 0.0
+            else:
+                cs = a if q["piece"] == "quintic" else b
+                terms = [cs[k] * x ** k for k in range(len(cs))]
+                want, scale = float(sum(terms)), float(sum(abs(t) for t in terms))
+            for route, f in impls.items():
+                n += 1
+                try:
+                    got = f(float(x))
+                except Exception as e:
+                    fail("evaluation-raises", "as.buck4 %s at r=%s through %s: %s: %s" % (texts[i], dec(q["x"]), route, type(e).__name__, str(e)[:160]), dict(form="buck4", p=c["p"], x=q["x"]))
+                    continue
+                # the implementation solves the ten equations in double precision: 1e-9 of the size of the polynomial's terms
+                if not close(got, want, scale=scale, tol=1e-9 if scale else 1e-12):
+                    fail("closed-form", "as.buck4 %s at r=%s (%s piece) through %s = %r, the documented four-range form gives %r" % (texts[i], dec(q["x"]), q["piece"], route, got, want),
+                         dict(form="buck4", p=c["p"], x=q["x"]))
+    return n
 
 
 DERIV_CLAUSES = ("deriv", "deriv2", "derivative-raises", "offers")
@@ -244,6 +325,8 @@ def run_forms(run, want):
                 exact = tlc.read_ndjson(os.path.join(res.outdir, "exact.ndjson"))
                 special = tlc.read_ndjson(os.path.join(res.outdir, "special.ndjson"))
                 sig = tlc.read_ndjson(os.path.join(res.outdir, "sig.ndjson"))[0]
+                buck4 = tlc.read_ndjson(os.path.join(res.outdir, "buck4.ndjson"))
+                factory_only = set(tlc.read_ndjson(os.path.join(res.outdir, "factoryonly.ndjson")))
         finally:
             tlc.cleanup(res)
         if not run.machinery_errors:
@@ -252,13 +335,19 @@ def run_forms(run, want):
             for nm, params in sorted(sig.items()):
                 fn = getattr(PFn, nm, None)
                 run.evaluations += 1
+                if nm in factory_only:
+                    fac = getattr(PFo, nm, None)
+                    got = list(inspect.signature(fac).parameters) if fac else None
+                    if got != list(params):
+                        run.violation(dict(engine="forms", clause="signature"), "the factory %s takes %s, the manual documents (%s)" % (nm, got, ", ".join(params)), dict(form=nm))
+                    continue
                 if fn is None:
                     run.violation(dict(engine="forms", clause="signature"), "documented form as.%s does not exist" % nm, dict(form=nm))
                     continue
                 got = list(inspect.signature(fn.__call__).parameters)
                 if got != ["r"] + list(params):
                     run.violation(dict(engine="forms", clause="signature"), "as.%s takes %s, the manual documents (r, %s)" % (nm, got, ", ".join(params)), dict(form=nm))
-            data = dict(exact=exact, special=special, lattice_r=[0.5, 1.0, 1.5, 2.0, 3.0],
+            data = dict(exact=exact, special=special, buck4=buck4, lattice_r=[0.5, 1.0, 1.5, 2.0, 3.0],
                         buck_params=[[1000.0, 0.3, 32.0], [32.0, 1000.0, 0.3], [0.3, 32.0, 1000.0], [-5.0, 0.5, 0.0]],
                         morse_params=[[1.5, 2.0, 0.5], [2.0, 0.5, 1.5], [0.5, 1.5, 2.0]],
                         expspline_params=[[0.1, -0.2, 0.05, 0.01, -0.002, 0.0003, 0.0], [0.1, -0.2, 0.05, 0.01, -0.002, 0.0003, 2.5],
@@ -275,7 +364,7 @@ def run_forms(run, want):
                 else:
                     out = json.loads(p.stdout)
                     run.evaluations += out["n"]
-                    run.replayed += len(exact) + len(special)
+                    run.replayed += len(exact) + len(special) + len(buck4)
                     for c in exact + special:
                         run.distinct(json.dumps(c, sort_keys=True))
                     for c in (exact[:: max(1, len(exact) // 3)][:3] + special[:1]):
